@@ -111,6 +111,13 @@ pub fn grid(full: bool) -> Vec<BigUint> {
     v.push(p - big(2));
     v.push(p - big(1));
     v.extend(limb_patterns(19));
+    // every power-of-two distance from the sign boundary (p-1)/2 and from the modulus
+    let h = (p - big(1)) / big(2);
+    for k in (8..=248u32).step_by(8) {
+        v.push(&h - pow2(k));
+        v.push((&h + pow2(k)) % p);
+        v.push(p - pow2(k));
+    }
     v.sort();
     v.dedup();
     v
